@@ -86,6 +86,29 @@ class Case:
     def __init__(self, op, prec, lays, A, B=None, kind="regular"):
         self.op, self.prec, self.lays, self.A, self.B, self.kind = op, prec, list(lays), A, B, kind
 
+    @property
+    def scale(self):
+        """every entry of every operand is multiplied by 2**scale (prec word `d@<k>` / `f@<k>`)"""
+        return int(self.prec.split("@")[1]) if "@" in self.prec else 0
+
+    @property
+    def base_prec(self):
+        return self.prec.split("@")[0]
+
+    def Aex(self, scaled=True):
+        f = Fr(2) ** self.scale if scaled else Fr(1)
+        return [[Fr(v) * f for v in row] for row in self.A]
+
+    def Bex(self, scaled=True):
+        f = Fr(2) ** self.scale if scaled else Fr(1)
+        return [[Fr(v) * f for v in row] for row in self.B]
+
+    def model_line(self):
+        """the scale is not part of the model (its contract is exact arithmetic): the model sees the unscaled case"""
+        w = self.line().split()
+        w[1] = self.base_prec
+        return " ".join(w)
+
     def line(self):
         r, c = len(self.A), len(self.A[0])
         fa = " ".join(str(v) for row in self.A for v in row)
@@ -269,12 +292,18 @@ def generate(rng, tier):
         for op, lays in combos:
             n = rng.randint(1, nmax) if rd else 1 + (len(cases) % nmax)
             prec = "f" if rng.random() < 0.15 else "d"
+            if rng.random() < 0.25:
+                # the same kind of system at another scale (all entries times a power of two: exact, same condition number)
+                prec += "@%d" % (rng.choice([-66, -40, -12, 9, 30, 60]) if prec == "d" else rng.choice([-30, -12, 9, 20]))
             cases.append(make_case(rng, op, lays, n, "regular", prec))
     # every n for the plainest forms
     for n in range(1, nmax + 1):
         for op, lays in (("gsv", ["rm", "ct"]), ("gsm", ["rm", "rm"]), ("ssv", ["rl", "pl", "ct"]), ("ssv", ["ru", "pl", "ct"]),
                          ("ssm", ["rl", "pl", "rm"]), ("ssm", ["ru", "pl", "rm"]), ("ginv", ["rm"]), ("sinv", ["rl", "pl"]), ("sinv", ["ru", "pl"])):
             cases.append(make_case(rng, op, lays, n, "regular", "d"))
+            if n <= 3:
+                # tiny and huge well-conditioned systems of the smallest sizes (an absolute threshold would show here)
+                cases.append(make_case(rng, op, lays, n, "regular", "d@%d" % rng.choice([-66, -60, 60])))
     # the error path: exactly singular
     for rd in range(2 if tier == "quick" else 6):
         for op, lays in combos:
@@ -310,19 +339,19 @@ def parse_struct(s):
     return {"calls": parts[0], "outcome": parts[1], "args": parts[2]}
 
 
-def exact_reference(c):
+def exact_reference(c, scaled=True):
     """what the property demands, from the case alone: ('exc', class) | ('ok', shape, Xexact, kappa, inv)"""
     r, cc = len(c.A), len(c.A[0])
     if c.op == "ginv" and r != cc:
         return ("exc", "invalid_operation")
-    A = [[Fr(v) for v in row] for row in c.A]
+    A = c.Aex(scaled)
     k, inv = kappa_inf(A)
     if k is None:
         return ("exc", "matrix_ill_conditioned")
     if c.op in ("ginv", "sinv"):
         shape = "m %d %d" % (r, r) if (c.op == "ginv" or c.lays[1] == "ex") else "s %d %s" % (r, c.lays[0])
         return ("ok", shape, inv, k, inv)
-    B = [[Fr(v) for v in row] for row in c.B]
+    B = c.Bex(scaled)
     X = matmul(inv, B)
     shape = "v %d" % r if c.op in ("gsv", "ssv") else "m %d %d" % (r, len(B[0]))
     return ("ok", shape, X, k, inv)
@@ -361,8 +390,8 @@ def oracle(c, line, strict_numerics=True):
     except (ValueError, OverflowError, TypeError):
         return "result is not %d finite numbers: %r" % (n * m, (vals or [])[:8]), info
     G = [got[i * m:(i + 1) * m] for i in range(n)]
-    A = [[Fr(v) for v in row] for row in c.A]
-    eps = Fr(EPS[c.prec])
+    A = c.Aex()
+    eps = Fr(EPS[c.base_prec])
     nA = norm_inf(A)
     worst = Fr(0)
     msg = None
@@ -377,7 +406,7 @@ def oracle(c, line, strict_numerics=True):
         if c.op == "sinv" and shape.startswith("s ") and any(G[i][j] != G[j][i] for i in range(n) for j in range(n)):
             msg = msg or "the SymmMatrix returned by inv is not symmetric"
     else:
-        B = [[Fr(v) for v in row] for row in c.B]
+        B = c.Bex()
         R = matmul(A, G)
         for k in range(m):
             xk = max(abs(G[i][k]) for i in range(n))
@@ -409,7 +438,7 @@ def oracle(c, line, strict_numerics=True):
 def model_values_exact(c, mline):
     """the Lean model's exact values must be the oracle's exact values (validates Lapack.ratImpl)"""
     s, vals = split_out(mline)
-    ref = exact_reference(c)
+    ref = exact_reference(c, scaled=False)
     if ref[0] != "ok":
         return None if not vals else "model printed values on an error path"
     X = ref[2]
@@ -437,7 +466,7 @@ def shrink(c, fails):
                 if c.lays[i] != plain[i]:
                     l2 = list(c.lays); l2[i] = plain[i]
                     yield Case(c.op, c.prec, l2, c.A, c.B, c.kind)
-        if c.prec == "f":
+        if c.base_prec == "f":
             yield Case(c.op, "d", c.lays, c.A, c.B, c.kind)
         if c.op in ("gsm", "ssm") and len(c.B[0]) > 1:
             yield Case(c.op, c.prec, c.lays, c.A, [row[:1] for row in c.B], c.kind)
@@ -470,7 +499,7 @@ def shrink(c, fails):
 def check_batch(ctx, exe, label, cases, with_model):
     lines = [c.line() for c in cases]
     impl, rc, err = run_lines(exe, lines)
-    model = vcheck.run_model("solve", "\n".join(lines) + "\n") if with_model else None
+    model = vcheck.run_model("solve", "\n".join(c.model_line() for c in cases) + "\n") if with_model else None
     if len(impl) < len(lines):
         k = len(impl)
         ctx.violation("implementation stopped on a solve/inv case (%s build): rc=%s %s" % (label, rc, err[-1500:]),
@@ -579,7 +608,7 @@ def run(ctx, replay):
             o, rc, err = run_lines(e, [c.line()])
             print("%-14s | %s" % (label, o[0] if o else "rc=%s %s" % (rc, err[-400:])))
             if wm:
-                print("%-14s | %s" % ("model", vcheck.run_model("solve", c.line() + "\n")[0]))
+                print("%-14s | %s" % ("model", vcheck.run_model("solve", c.model_line() + "\n")[0]))
             check_batch(ctx, e, label, [c], wm)
         finish(ctx, fails)
         return
